@@ -294,7 +294,7 @@ def samples_of(cases, n=3):
 def purity_violations(calls, orders=None, what="value"):
     """Pure functions must not depend on call history: evaluate the same list of calls
     [(label, 'module:function', args[, post]), ...] in several orders, EACH ORDER IN A FRESH
-    INTERPRETER, and demand bitwise equal results per call.  A memo keyed too coarsely, a hoisted
+    INTERPRETER, and demand equal results per call (to 1e-12 relative: a few ulp).  A memo keyed too coarsely, a hoisted
     scratch buffer or a mutated default shows up as a difference between two orders (within one
     process the first caller would already have populated a module-level memo for all orders)."""
     import pickle  # noqa: PLC0415
@@ -316,9 +316,29 @@ def purity_violations(calls, orders=None, what="value"):
             return [V("purity/worker-failed", r.stderr.decode()[-400:], case={"order": order[:5]})]
         results.append(pickle.loads(r.stdout))
     out = []
+
+    def differ(vals):
+        """More than a few ulp apart (a warm-started root finder may legitimately move a result by an ulp with
+        the call order; a memo keyed too coarsely or a stale buffer moves it by orders of magnitude more)."""
+        vals = list(vals)
+        if len(vals) < 2:
+            return False
+        if any(v[0] != "ok" for v in vals):
+            return True
+        arrs = [np.frombuffer(v[1]) for v in vals]
+        if any(a.shape != arrs[0].shape for a in arrs):
+            return True
+        for a in arrs[1:]:
+            with np.errstate(all="ignore"):
+                ok = (np.abs(a - arrs[0]) <= 1e-12 * np.maximum(np.abs(a), np.abs(arrs[0]))) | (a == arrs[0]) | \
+                     (np.isnan(a) & np.isnan(arrs[0]))
+            if not np.all(ok):
+                return True
+        return False
+
     for i in range(n):
         vals = {r[i] for r in results}
-        if len(vals) > 1:
+        if differ(vals):
             label, path, args, _ = calls[i]
             shown = [float(np.frombuffer(v[1])[0]) if v[0] == "ok" and len(v[1]) >= 8 else v for v in vals]
             out.append(V("purity/result-depends-on-call-history",
